@@ -44,7 +44,13 @@ MUT = {
  "v2-extra-data": ("replication/binlog_event_rbr.go", "\t\tpos += int(extraDataLength)\n", "\t\tpos += 2\n\t\t_ = extraDataLength\n", "C01"),
  "null-bitmap-index": ("streamer.go", "\t\tif rs.Rows[rowIndex].NullColumns.Bit(valueIndex) {", "\t\tif rs.Rows[rowIndex].NullColumns.Bit(c) {", "C01"),
  "tx-timestamp": ("streamer.go", "tran := newTransaction(now, next, int64(ev.Timestamp()), tranEvents)", "tran := newTransaction(now, next, int64(ev.Timestamp())+int64(len(tranEvents)/7), tranEvents)", "C01"),
+ "new-race-in-gobinlog": ("slave_connection.go", "\t\t\tev, err := s.readBinlogEvent()\n", "\t\t\tev, err := s.readBinlogEvent()\n\t\t\ts.destructionCount++\n", "C05"),
  "xid-after-sql-only": ("streamer.go", "\t\t\ttranEvents = append(tranEvents, tranEvent)\n\t\t\tif autocommit {\n\t\t\t\tif err = commit(ev); err != nil {\n\t\t\t\t\treturn pos, newError(err).msgf(\"parseEvents commit fail in WriteRows event\")", "\t\t\ttranEvents = append(tranEvents, tranEvent)\n\t\t\tif autocommit && len(rows.Rows) > 1 {\n\t\t\t\tif err = commit(ev); err != nil {\n\t\t\t\t\treturn pos, newError(err).msgf(\"parseEvents commit fail in WriteRows event\")", "C02"),
+}
+
+EXTRA = {
+ "new-race-in-gobinlog": [("\terrChan     chan *Error\n}", "\terrChan     chan *Error\n\tdestructionCount int\n}"),
+                          ("\t\t\tif s.dc != nil {\n\t\t\t\ts.dc.Close()", "\t\t\tif s.dc != nil && s.destructionCount >= 0 {\n\t\t\t\ts.dc.Close()")],
 }
 
 def sh(cmd, cwd=None, env=ENV, timeout=3600):
@@ -83,7 +89,12 @@ def main():
             s = open(path).read()
             if old not in s:
                 print(f"MUTATION {name}: anchor not found in {f}"); sys.exit(2)
-            open(path, "w").write(s.replace(old, new, 1))
+            s = s.replace(old, new, 1)
+            for o2, n2 in EXTRA.get(name, []):
+                if o2 not in s:
+                    print(f"MUTATION {name}: extra anchor not found"); sys.exit(2)
+                s = s.replace(o2, n2, 1)
+            open(path, "w").write(s)
         rc, out = sh("go build ./... && go test -count=1 ./...", cwd=wt)
         suite = "passes" if rc == 0 else "FAILS"
         if rc != 0:
